@@ -1,6 +1,6 @@
 (* C08 -- SCTP packets round-trip exactly; corrupted packets are rejected by the
    checksum.  Property theorems only; proofs live in Proof/Crc32cP.v,
-   Proof/SctpWireP.v, Proof/SctpWireRtP.v, Proof/SctpBurstP.v and (parser
+   Proof/SctpWireP.v, Proof/SctpWireRtP.v, Proof/SctpWireWfP.v, Proof/SctpBurstP.v and (parser
    totality, shared with C05) Proof/SctpWireTotalP.v.
 
    `chunk_okb c = true` is "every field of c is in the range struct.pack accepts
@@ -11,7 +11,7 @@
    of byte (i / 8); the checksum field is bits 64..95. *)
 From Coq Require Import ZArith List Bool Arith.
 From AV Require Import Lib.Bytes Lib.BytesP Gen.SctpConst Model.Crc32c Model.SctpWire
-  Proof.Crc32cP Proof.SctpWireP Proof.SctpWireRtP Proof.SctpWireTotalP Proof.SctpBurstP.
+  Proof.Crc32cP Proof.SctpWireP Proof.SctpWireRtP Proof.SctpWireTotalP Proof.SctpBurstP Proof.SctpWireWfP.
 Import ListNotations.
 Local Open Scope Z_scope.
 
@@ -55,6 +55,22 @@ Theorem C08_reconfig_param_roundtrip : forall p,
   reconfig_param_parse (rparam_type p) (rparam_bytes p) = Some (Ok p) /\ bytes_ok (rparam_bytes p).
 Proof. exact rparam_roundtrip. Qed.
 Print Assumptions C08_reconfig_param_roundtrip.
+
+(* Conversely, whatever parse_packet returns for ANY received byte string is well formed: ports,
+   tag and every field of every chunk are in wire range, so each parsed chunk (for instance the
+   parameters of a HEARTBEAT that are echoed back) can be serialised without struct.error ... *)
+Theorem C08_parsed_wellformed : forall data sp dp tag cs,
+  bytes_ok data -> parse_packet data = Ok (sp, dp, tag, cs) ->
+  in_u16 sp = true /\ in_u16 dp = true /\ in_u32 tag = true /\ forallb chunk_okb cs = true.
+Proof. exact parse_packet_wf. Qed.
+Print Assumptions C08_parsed_wellformed.
+
+(* ... and parse ; serialise ; parse = parse *)
+Theorem C08_parse_serialize_parse : forall data sp dp tag cs,
+  bytes_ok data -> parse_packet data = Ok (sp, dp, tag, cs) -> cs <> [] ->
+  parse_packet (packet_bytes sp dp tag (flat_map chunk_bytes cs)) = Ok (sp, dp, tag, cs).
+Proof. exact parse_serialize_parse. Qed.
+Print Assumptions C08_parse_serialize_parse.
 
 (* ---------------------------------------------------------------- CRC-32C *)
 Theorem C08_crc_check_value : crc32c [49; 50; 51; 52; 53; 54; 55; 56; 57] = 3808858755.
